@@ -1,1 +1,1 @@
-let () = Glue.run_file Ffsrun.eval_ffs Sys.argv.(1)
+let () = Glue.run_file Grammarrun.eval_c01 Sys.argv.(1)
